@@ -14,6 +14,8 @@ import (
 	"os"
 	"path/filepath"
 	"strings"
+	"sync"
+	"time"
 
 	"github.com/shogo82148/goat/jwa"
 	"github.com/shogo82148/goat/jwe"
@@ -24,16 +26,18 @@ import (
 func init() { vf.Register(&vf.Property{ID: "C06", Run: runC06, Replay: replayC06}) }
 
 type c06Case struct {
-	Base  c05Case `json:"base"`            // the valid message (mode indep or goat)
-	Mut   string  `json:"mut"`             // subst-text | subst-bytes | trunc | extend | swap | b64 | hdr | key | none
-	Seg   string  `json:"seg,omitempty"`   // protected | encrypted_key | iv | ciphertext | tag | aad
-	Pos   int     `json:"pos,omitempty"`   // position (taken modulo the length)
-	Val   int     `json:"val,omitempty"`   // substituted value / amount
-	Param string  `json:"param,omitempty"` // header parameter for hdr edits
-	Where string  `json:"where,omitempty"` // protected | unprotected | recipient
-	Op    string  `json:"op,omitempty"`    // set | del | move
-	Seed2 uint64  `json:"seed2,omitempty"` // second message / wrong key
-	Prim  string  `json:"prim,omitempty"`  // primitive-level case
+	Base  c05Case  `json:"base"`            // the valid message (mode indep or goat)
+	Mut   string   `json:"mut"`             // subst-text | subst-bytes | trunc | extend | swap | b64 | hdr | key | none
+	Seg   string   `json:"seg,omitempty"`   // protected | encrypted_key | iv | ciphertext | tag | aad
+	Pos   int      `json:"pos,omitempty"`   // position (taken modulo the length)
+	Val   int      `json:"val,omitempty"`   // substituted value / amount
+	Param string   `json:"param,omitempty"` // header parameter for hdr edits
+	Where string   `json:"where,omitempty"` // protected | unprotected | recipient
+	Op    string   `json:"op,omitempty"`    // set | del | move
+	Seed2 uint64   `json:"seed2,omitempty"` // second message / wrong key
+	Prim  string   `json:"prim,omitempty"`  // primitive-level case
+	Side  string   `json:"side,omitempty"`  // history case: parsed | sender
+	Ops   []string `json:"ops,omitempty"`   // history case: operations applied to ONE Message object
 }
 
 // c06Msg is a message taken apart so that a single part can be edited and everything else is
@@ -314,6 +318,10 @@ func applyMutation(cs c06Case, m *c06Msg, t int, r *vf.Rand, other *c06Msg, othe
 }
 
 func execC06(c *vf.Ctx, d *vf.Driver, cs c06Case) {
+	if cs.Side != "" {
+		execC06Hist(c, d, cs)
+		return
+	}
 	if cs.Prim != "" {
 		execC06Prim(c, cs)
 		return
@@ -375,28 +383,7 @@ func execC06(c *vf.Ctx, d *vf.Driver, cs c06Case) {
 	if cs.Mut == "key" {
 		// wrong key: right kind and size (Val 0), right kind wrong size (1), wrong kind (2)
 		alg := append([]string{base.Alg}, base.Extra...)[t]
-		var wk *jKey
-		switch cs.Val % 3 {
-		case 0:
-			wk = c05MakeKey(alg, base.Enc, "wrong", r, 1)
-			if wk.RSA != nil && e.keys[fmt.Sprintf("k%d", t)].RSA != nil && wk.RSA.N.Cmp(e.keys[fmt.Sprintf("k%d", t)].RSA.N) == 0 {
-				wk = c05RSAKey(0)
-				if wk.RSA.N.Cmp(e.keys[fmt.Sprintf("k%d", t)].RSA.N) == 0 {
-					wk = c05RSAKey(1)
-				}
-			}
-		case 1:
-			wk = &jKey{Oct: r.Bytes(1 + r.Intn(70))}
-			if k := e.keys[fmt.Sprintf("k%d", t)]; k.Oct != nil && len(k.Oct) == len(wk.Oct) {
-				wk.Oct = append(wk.Oct, 1)
-			}
-		case 2:
-			if e.keys[fmt.Sprintf("k%d", t)].Oct != nil {
-				wk = jNewECKey("P-256", r.Bytes)
-			} else {
-				wk = &jKey{Oct: r.Bytes(32)}
-			}
-		}
+		wk := c06WrongKey(e, alg, base.Enc, t, cs.Val, r)
 		wk.ID = "wrong"
 		e.addKey(wk)
 		e.finder.KeyID = "wrong"
@@ -471,6 +458,226 @@ func execC06(c *vf.Ctx, d *vf.Driver, cs c06Case) {
 		c.Count("accepted-unchanged-authenticated-data/" + cs.Mut + "/" + cs.Seg + cs.Param)
 	}
 	c.Sample(cs)
+}
+
+// ---- history stream: several operations on ONE *jwe.Message ---------------------------------------
+
+var c06HistOps = []string{"dec-right", "dec-wrong-same", "dec-wrong-size", "dec-other", "serialize", "encrypt"}
+
+// c06WrongKey: a key that is not recipient t's: right kind and size (0), right kind wrong size (1), wrong kind (2).
+func c06WrongKey(e *c05Env, alg, enc string, t, variant int, r *vf.Rand) *jKey {
+	own := e.keys[fmt.Sprintf("k%d", t)]
+	var wk *jKey
+	switch variant % 3 {
+	case 0:
+		wk = c05MakeKey(alg, enc, "wrong", r, 1)
+		if wk.RSA != nil && own.RSA != nil && wk.RSA.N.Cmp(own.RSA.N) == 0 {
+			wk = c05RSAKey(0)
+			if wk.RSA.N.Cmp(own.RSA.N) == 0 {
+				wk = c05RSAKey(1)
+			}
+		}
+		if wk.Crv != "" && own.Crv != "" && wk.Crv != own.Crv {
+			wk = jNewECKey(own.Crv, r.Bytes)
+		}
+	case 1:
+		wk = &jKey{Oct: r.Bytes(1 + r.Intn(70))}
+		if own.Oct != nil && len(own.Oct) == len(wk.Oct) {
+			wk.Oct = append(wk.Oct, 1)
+		}
+	case 2:
+		if own.Oct != nil {
+			wk = jNewECKey("P-256", r.Bytes)
+		} else {
+			wk = &jKey{Oct: r.Bytes(32)}
+		}
+	}
+	return wk
+}
+
+// execC06Hist applies cs.Ops to one Message object (parsed from the serialization, or the sender-side object
+// returned by goat's constructors).  Requirement: the outcome of every Decrypt depends on (message, key) only —
+// it equals what the (functional) model says for the object's current serialization and that key, the right
+// key gives the plaintext and every other key fails, whatever happened to the object before.
+type c06HistBase struct {
+	e    *c05Env
+	data []byte
+	ser  string
+	pt   []byte
+	algs []string
+	memo map[string]c05Result // model results per (serialization, key): the model is a function
+}
+
+// parsed-side bases are built once and re-parsed for every sequence (the serialization is the input);
+// sender-side objects have to be constructed afresh for every sequence.
+var c06HistCache sync.Map
+
+func execC06Hist(c *vf.Ctx, d *vf.Driver, cs c06Case) {
+	base := cs.Base
+	var e *c05Env
+	var data []byte
+	var ser string
+	var pt []byte
+	var obj *jwe.Message
+	var algs []string
+	memo := map[string]c05Result{}
+	cacheKey := cs.Side + "|" + base.key()
+	if hb, ok := c06HistCache.Load(cacheKey); ok && cs.Side == "parsed" {
+		h := hb.(*c06HistBase)
+		e, data, ser, pt, algs, memo = h.e, h.data, h.ser, h.pt, h.algs, h.memo
+	} else if base.Mode == "goat" {
+		e, algs, pt, _ = c05Setup(base)
+		b := buildGoat(base, pt, e, algs, 0)
+		if !b.built {
+			return
+		}
+		data, ser, obj = b.data, b.ser, b.msg
+	} else {
+		var err error
+		e, _, data, ser, pt, err = buildIndep(base)
+		if err != nil {
+			return
+		}
+		algs = append([]string{base.Alg}, base.Extra...)
+		if base.sharedAlg() {
+			for i := range algs {
+				algs[i] = base.Alg
+			}
+		}
+	}
+	if cs.Side == "parsed" {
+		c06HistCache.Store(cacheKey, &c06HistBase{e, data, ser, pt, algs, memo})
+	}
+	if cs.Side == "parsed" {
+		var err error
+		if ser == "compact" {
+			obj, err = jwe.Parse(data)
+		} else {
+			obj, err = jwe.ParseJSON(data)
+		}
+		if err != nil {
+			return
+		}
+	} else if obj == nil {
+		return
+	}
+	t := base.Target
+	if t >= len(algs) {
+		t = 0
+	}
+	r := vf.NewRand(base.Seed ^ 0x7f4a7c15) // the other keys are a function of the base
+	for i, v := range []string{"wrong-same", "wrong-size"} {
+		wk := c06WrongKey(e, algs[t], base.Enc, t, i, r)
+		wk.ID = v
+		e.addKey(wk)
+	}
+	other := fmt.Sprintf("k%d", (t+1)%len(algs))
+	if len(algs) == 1 {
+		wk := c06WrongKey(e, algs[t], base.Enc, t, 0, r)
+		wk.ID = "other"
+		e.addKey(wk)
+		other = "other"
+	}
+	extra := e.addKey(&jKey{ID: "kx", Oct: r.Bytes(16)})
+	_ = extra
+	sharedHasAlg := false
+	if p0, err := jweParse(data); err == nil {
+		_, a := p0.Protected["alg"]
+		_, b := p0.Unprotected["alg"]
+		sharedHasAlg = a || b
+	}
+	curData, curSer := data, ser
+	dirty := false // an Encrypt changed the object: its serialization has to be taken again
+	c.Case(cs.Side+"|"+strings.Join(cs.Ops, ",")+"|"+base.key(), true)
+	c.Count("hist/" + cs.Side)
+	c.Count(fmt.Sprintf("hist-len/%d", len(cs.Ops)))
+	failed := func(kind, what, obs, req string) {
+		c.Fail(vf.Violation{Kind: kind, Class: "c06-decrypt-history-dependent", What: what, Case: cs, Observed: obs, Required: req})
+	}
+	for step, op := range cs.Ops {
+		c.Count("hist-op/" + op)
+		switch op {
+		case "serialize":
+			var err error
+			if p, what := vf.Recover(func() {
+				if step%2 == 0 {
+					_, err = obj.Compact()
+				} else {
+					_, err = obj.MarshalJSON()
+				}
+			}); p {
+				failed("property", "serialising the object panics", what, "bytes or an error")
+				return
+			}
+			_ = err
+		case "encrypt":
+			kw, err := e.goatWrapper("A128KW", "kx")
+			if err != nil {
+				return
+			}
+			h := &jwe.Header{}
+			if !sharedHasAlg {
+				h.SetAlgorithm("A128KW") // header parameter names must stay disjoint
+			}
+			h.SetKeyID(fmt.Sprintf("x%d", step))
+			if p, what := vf.Recover(func() { err = obj.Encrypt(kw, h) }); p {
+				failed("property", "Encrypt on the object panics", what, "a recipient or an error")
+				return
+			}
+			if err == nil {
+				dirty = true
+			}
+		default: // a Decrypt with some key
+			keyID := map[string]string{"dec-right": fmt.Sprintf("k%d", t), "dec-wrong-same": "wrong-same", "dec-wrong-size": "wrong-size", "dec-other": other}[op]
+			e.finder = c05Finder{Index: t, KeyID: keyID}
+			if dirty {
+				js, err := obj.MarshalJSON()
+				if err != nil {
+					return
+				}
+				curData, curSer, dirty = js, "json", false
+			}
+			e.resetTraces()
+			var gpt []byte
+			var gerr error
+			goat := c05Result{Tag: "ok"}
+			if p, what := vf.Recover(func() { gpt, gerr = obj.Decrypt(e.goatFinder()) }); p {
+				goat = c05Result{Tag: "panic", Msg: what}
+			} else if gerr != nil {
+				goat = c05Result{Tag: "err", Msg: gerr.Error()}
+			} else {
+				goat.PT = gpt
+			}
+			// the model, per call, on the object's serialization and this key (memoised per case)
+			e.nFindM, e.modCalls = 0, nil
+			mkey := keyID + "|" + curSer + "|" + string(curData)
+			mod, seen := memo[mkey]
+			if !seen {
+				var derr error
+				mod, derr = e.modelDecrypt(d, curData, curSer)
+				c.TraceValidated()
+				if derr != nil {
+					c.Fail(vf.Violation{Kind: "correspondence", Class: "driver-error", What: derr.Error(), Case: cs})
+					return
+				}
+				memo[mkey] = mod
+			}
+			c.Count("hist-outcome/" + op + "/" + goat.Tag)
+			where := fmt.Sprintf("step %d (%s) of %v on a %s object", step, op, cs.Ops, cs.Side)
+			if !sameResult(goat, mod) {
+				failed("correspondence", where+": Decrypt on the object differs from the model's decryption of its serialization with the same key",
+					"goat "+goat.String(), "model "+mod.String())
+			}
+			switch {
+			case goat.Tag == "panic":
+				failed("property", where+": Decrypt panics", goat.String(), "an error")
+			case op == "dec-right" && !(goat.Tag == "ok" && bytes.Equal(goat.PT, pt)):
+				failed("property", where+": the recipient's key no longer decrypts", goat.String(), "the plaintext")
+			case op != "dec-right" && goat.Tag == "ok":
+				failed("property", where+": a key that is not the recipient's decrypts", goat.String(), "an error")
+			}
+		}
+	}
 }
 
 // buildIndepWith builds the second message; with an even seed2 it shares the keys of the base.
@@ -673,6 +880,8 @@ func runC06(c *vf.Ctx) {
 	}
 	c.Set("rule", "per worker: bases x (unmodified + random single edits); exhaustive single-character substitution of every position of every segment for some bases")
 	c.Parallel(0, true, func(w int, r *vf.Rand, d *vf.Driver) {
+		t0 := time.Now()
+		defer func() { c.Note("worker %d: %.0fs", w, time.Since(t0).Seconds()) }()
 		for i := 0; i < nBases; i++ {
 			base := genC06Base(r)
 			execC06(c, d, c06Case{Base: base, Mut: "none"})
@@ -700,6 +909,48 @@ func runC06(c *vf.Ctx) {
 		}
 		for i := 0; i < c.Budget(40, 400); i++ {
 			execC06(c, d, c06Case{Prim: vf.Pick(r, c06Prims), Seed2: r.U64()})
+		}
+		c.Note("worker %d: mutation + primitive streams %.0fs", w, time.Since(t0).Seconds())
+		// history stream: all operation sequences of length <= 3 on one object, parsed and sender-side
+		var seqs [][]string
+		for _, a := range c06HistOps {
+			seqs = append(seqs, []string{a})
+			for _, b := range c06HistOps {
+				seqs = append(seqs, []string{a, b})
+				for _, x := range c06HistOps {
+					seqs = append(seqs, []string{a, b, x})
+				}
+			}
+		}
+		for i := 0; i < c.Budget(2, 6); i++ {
+			for _, side := range []string{"parsed", "sender"} {
+				base := genC06Base(r)
+				if side == "sender" {
+					for base.Mode != "goat" {
+						base = genC06Base(r)
+					}
+				}
+				if base.Mode == "goat" { // goat's default p2c = 10000 makes 252 constructions per base slow; PBES2 is covered through indep bases
+					if strings.HasPrefix(base.Alg, "PBES2") {
+						base.Alg = "A256KW"
+					}
+					for i, a := range base.Extra {
+						if strings.HasPrefix(a, "PBES2") {
+							base.Extra[i] = "A192GCMKW"
+						}
+					}
+				}
+				for _, ops := range seqs {
+					useful := false
+					for _, o := range ops {
+						useful = useful || strings.HasPrefix(o, "dec-")
+					}
+					if useful {
+						execC06(c, d, c06Case{Base: base, Side: side, Ops: ops, Seed2: r.U64()})
+					}
+				}
+				c.Count("hist-bases/" + side)
+			}
 		}
 	})
 }
